@@ -11,6 +11,8 @@
 //	labels  P<n><p|t> push message n (ordinal in push order; p persistent, t transient)   O pop
 //	        Q<n><p|t> requeue message n   A<n><p|t> ack message n   X purge   L loader turn
 //	        Kp / Kt persist tick of the persistent / transient store
+//	        R<n><p|t> loader turn with the push of message n (flushed at once) landing inside it: after the loader's two
+//	        iterations, before it pushes what it loaded and writes swappedToDisk (the loader holds no lock)
 //	        script-only: o = "ready pop": while the ring is empty and the queue is swapped (at most 3 times)
 //	        run Kp Kt L, then O (printed expanded);  q / a = requeue / ack the oldest outstanding delivery
 //	obs     one per label: <out>:<swapped 0|1>,<lastStored>,<lastMem>,<queueLength>,<ringLength>
@@ -60,6 +62,7 @@ type loaderSync struct {
 	mu     sync.Mutex
 	active bool
 	pDone  chan struct{}
+	inject func() // run once, on the loader's transient-iteration goroutine, right after that iteration returned
 }
 
 type memDB struct {
@@ -177,7 +180,17 @@ func (d *memDB) IterateByPrefixFrom(prefix []byte, from []byte, limit uint64, fn
 		}
 		time.Sleep(300 * time.Microsecond)
 	}
-	return d.iterFrom(prefix, from, limit, fn)
+	n := d.iterFrom(prefix, from, limit, fn)
+	if active && !d.isP {
+		s.mu.Lock()
+		inj := s.inject
+		s.inject = nil
+		s.mu.Unlock()
+		if inj != nil {
+			inj()
+		}
+	}
+	return n
 }
 
 func (d *memDB) DeleteByPrefix(prefix []byte) {
@@ -360,6 +373,35 @@ func (r *rig) exec(tok string) (label string, out string, err error) {
 		r.sync.active, r.sync.pDone = false, nil
 		r.sync.mu.Unlock()
 		return "L", "_", nil
+	case 'R':
+		// loader turn with a push (flushed at once) landing after its iterations, before it writes its results
+		p := strings.HasSuffix(tok, "p")
+		n := r.next
+		r.next++
+		m := newMessage(p, n)
+		pushAndFlush := func() {
+			r.q.Push(m)
+			r.pst.VerifPersist()
+			r.tst.VerifPersist()
+		}
+		r.sync.mu.Lock()
+		r.sync.active, r.sync.pDone, r.sync.inject = true, make(chan struct{}), pushAndFlush
+		r.sync.mu.Unlock()
+		r.q.VerifLoaderTurn()
+		r.sync.mu.Lock()
+		pending := r.sync.inject
+		r.sync.active, r.sync.pDone, r.sync.inject = false, nil, nil
+		r.sync.mu.Unlock()
+		if pending != nil { // the loader did not proceed: nothing was iterated
+			pushAndFlush()
+		}
+		if m.ID == 0 {
+			return "", "", fmt.Errorf("push did not assign an id")
+		}
+		r.ord[m.ID] = n
+		r.msgs[n] = m
+		r.pers[n] = p
+		return fmt.Sprintf("R%d%s", n, flag2(p)), "_", nil
 	case 'K':
 		if tok == "Kp" {
 			r.pst.VerifPersist()
@@ -495,6 +537,9 @@ func genRandom(r *hx.Rng, n int, durable bool) []string {
 			s = append(s, "a")
 		case k < pPush+pPop+12:
 			s = append(s, "X")
+		case k < pPush+pPop+13:
+			s = append(s, []string{"Rt", "Rp"}[r.Intn(2)])
+			pushed++
 		case k < pPush+pPop+22:
 			s = append(s, "L")
 		case k < pPush+pPop+28:
@@ -685,8 +730,8 @@ func cmdReplay(args []string) error {
 	// labels of a printed case carry ordinals (P3p); the driver numbers pushes itself
 	var script []string
 	for _, t := range strings.Fields(p[3]) {
-		if t[0] == 'P' {
-			t = "P" + t[len(t)-1:]
+		if t[0] == 'P' || t[0] == 'R' {
+			t = t[:1] + t[len(t)-1:]
 		}
 		script = append(script, t)
 	}
